@@ -49,7 +49,7 @@ def main():
     out = sys.argv[2] if len(sys.argv) > 2 else '/tmp/seedwork/out-%s' % prop
     notes = json.load(open(os.path.join(out, 'notes.json')))
     props = {json.loads(l)['id']: json.loads(l) for l in open(os.path.join(VERIF, 'properties.jsonl'))}
-    for n, note in enumerate(notes, 1):
+    for n, note in enumerate(notes, int(os.environ.get('SEED_START', '1'))):
         patch = os.path.join(out, note['patch']); dm = os.path.join(out, note['demo'])
         clean = scratch_copy(); mut = scratch_copy()
         try:
